@@ -54,9 +54,9 @@ ASSUMPTIONS = [
 ]
 
 BOTH = ('unknown-fn', 'xlfn', 'xlfn-like-known', 'undefined-name', 'ref-literal',
-        'ref-literal-arg', 'unknown-fn-nested')
+        'ref-literal-arg', 'unknown-fn-nested', 'name-unknown-fn')
 FILES = ('missing-sheet', 'missing-sheet-range', 'missing-book', 'empty-file',
-         'truncated-file', 'directory', 'garbage-file')
+         'truncated-file', 'directory', 'garbage-file', 'name-missing-sheet')
 NAME_ONLY = {'#NAME?'}
 REF_OR_NAME = {'#REF!', '#NAME?'}
 
@@ -83,6 +83,16 @@ def fault_tree(kind, rng, desc, b):
         if rng.random() < 0.5:
             return ['raw', nm, "'[%s]'!%s" % (bk, nm)], REF_OR_NAME
         return ['bin', '*', ['raw', nm, "'[%s]'!%s" % (bk, nm)], ['lit', 2.0]], REF_OR_NAME
+    if kind in ('name-unknown-fn', 'name-missing-sheet'):
+        # the unresolvable item sits in the definition of a defined name
+        nm = 'BROKEN%d' % (len(desc['names']) + 1)
+        if kind == 'name-unknown-fn':
+            desc['names'][nm] = ['val', b, ['call', 'NOTAFUNCTION', [arg]]]
+            acc = NAME_ONLY
+        else:
+            desc['names'][nm] = ['val', b, ['raw', 'Gone!$A$1', "'[%s]Gone'!$A$1" % bk]]
+            acc = REF_OR_NAME
+        return ['bin', '+', ['name', nm], ['lit', 0.0]], acc
     if kind == 'ref-literal':
         return ['bin', '+', ['err', '#REF!'], arg], {'#REF!'}
     if kind == 'ref-literal-arg':
